@@ -1,14 +1,14 @@
 SPECIFICATION Spec
 CONSTANTS
   Formats = {"gro", "dump", "xyz", "pdb", "pdbx", "dlph", "dlpc"}
-  NSet = {0, 1, 2, 5}
-  MaxFrames = 4
-  Pids = {0, 1, 2, 3, 7, 13, 29, 50, 98}
-  MaxFiles = 3
-  ExtraNext = 2
-  HVSet = {FALSE, TRUE}
-  HFSet = {FALSE, TRUE}
-  ReuseSet = {FALSE, TRUE}
+  NSet = {2}
+  MaxFrames = 3
+  Pids = {98}
+  MaxFiles = 1
+  ExtraNext = 1
+  HVSet = {TRUE}
+  HFSet = {TRUE}
+  ReuseSet = {FALSE}
   Emit = TRUE
 INVARIANTS OrderAndContent EofExact CountPreserved MismatchIsError NothingAfterError FileIsHistory Leaf
 CHECK_DEADLOCK FALSE
